@@ -86,7 +86,7 @@ def segment_of(events, idx):
     return events[a:b + 1]
 
 
-def validate(ctx, trace_file, what, scenarios=None):
+def validate(ctx, trace_file, what, scenarios=None, rerun=None):
     """judge one log with Trace_Transport.tla; record violations of this property; return stats"""
     events = C.read_ndjson(trace_file)
     res = C.tlc_trace(ctx, "Trace_Transport", trace_file, timeout=3000, xmx="8g")
@@ -103,7 +103,7 @@ def validate(ctx, trace_file, what, scenarios=None):
         if m and scenarios is not None:
             model = scenarios[int(m.group(1))]
         ctx.violation(sig, {"event": events[idx - 1] if 0 < idx <= len(events) else None, "judge": detail, "origin": origin},
-                      replay_src={"what": what, "origin": origin, "model_scenario": model, "events": seg})
+                      replay_src={"what": what, "origin": origin, "model_scenario": model, "rerun": rerun, "events": seg})
     segs = sum(1 for e in events if e["e"] == "Reset")
     ctx.traces += segs
     ctx.events += len(events)
@@ -378,7 +378,8 @@ def run(ctx):
         n = min(chunk, steps)
         rf = ctx.path("random_%d.ndjson" % part)
         C.run_bin(bindir, "transport", ["random", rf, n], env={"VERIF_SEED": ctx.seed * 1000 + part})
-        evs, _ = validate(ctx, rf, "random driver seed %d" % (ctx.seed * 1000 + part))
+        evs, _ = validate(ctx, rf, "random driver seed %d" % (ctx.seed * 1000 + part),
+                          rerun={"cmd": "random", "steps": n, "seed": ctx.seed * 1000 + part})
         ev_random += evs if part == 0 else []
         if part > 0:
             # keep the statistics of every chunk without holding all events
@@ -432,12 +433,38 @@ def run_replay_file(ctx, bindir):
     with open(ctx.replay) as f:
         rp = json.load(f)
     sc = rp.get("scenario") or {}
-    if sc.get("model_scenario"):
+    if "delegation_table" in sc:
+        container_model(ctx)          # TLC counterexample of the container model: check the current source again
+    elif sc.get("config"):
+        consts = dict(sc["config"])
+        consts.pop("NoExport", None)
+        cfg = write_cfg(ctx, "replay", consts, C04_INV if ctx.pid == "C04" else C17_INV, export=False)
+        try:
+            r = C.tlc_mc(ctx, "MC_Transport", cfg=cfg, workers=8, timeout=3000,
+                         ignore_uncovered=READER_ACTIONS if consts.get("Kinds") == "MC_KindsW" else ())
+        finally:
+            os.remove(os.path.join(C.SPEC, cfg))
+        for v in r["violated"]:
+            ctx.violation("%s|model|%s" % (ctx.pid, v), {"tlc": r["output"][-2500:]}, replay_src=sc)
+    elif sc.get("model_scenario"):
         sf = ctx.path("scenarios.ndjson")
         C.write_ndjson(sf, [sc["model_scenario"]])
         rt = ctx.path("replay.ndjson")
         C.run_bin(bindir, "transport", ["replay", sf, rt], env={"VERIF_SEED": ctx.seed})
         validate(ctx, rt, "re-execution of " + sc.get("origin", "?"), scenarios=[sc["model_scenario"]])
+    elif sc.get("rerun") and sc.get("events"):
+        # the random driver is deterministic in (seed, steps): run it again on the current tree and
+        # judge the same scenario
+        rr = sc["rerun"]
+        full = ctx.path("random_full.ndjson")
+        C.run_bin(bindir, "transport", ["random", full, rr["steps"]], env={"VERIF_SEED": rr["seed"]})
+        segid = sc["events"][0]["seg"]
+        evs = [e for e in C.read_ndjson(full) if e.get("seg") == segid]
+        if not evs:
+            raise C.ToolError("scenario %s not reproduced by the random driver" % sc.get("origin"))
+        rt = ctx.path("rerun.ndjson")
+        C.write_ndjson(rt, evs)
+        validate(ctx, rt, "re-execution of " + sc.get("origin", "?"), rerun=rr)
     elif sc.get("events"):
         rt = ctx.path("recorded.ndjson")
         C.write_ndjson(rt, sc["events"])
